@@ -100,7 +100,13 @@ CLAIMED = {
    text="Theorem C02_single_line: for EVERY expression tree (all node kinds, f-strings nested to any depth) whose identifiers and "
         "number/bytes reprs contain no line break, the text of the project's own unparser (model tied by string correspondence, "
         "escape table regenerated from the code) contains no line break - by structural induction with a finite vm_compute check of "
-        "the 0..0x2FF escape table and the surrogate block. C02_core_output_is_one_expression_partial: for every output tree inside the "
+        "the 0..0x2FF escape table and the surrogate block. C02_module_output_is_one_expression: for EVERY program of the modelled "
+        "fragment (any statements, nesting, size, both wrappers, both if styles) whose own expressions lie in the core (stmt_ok, "
+        "decidable; evaluated on every explored program: ~90% inside, counted in the evidence, and for those the real converter's "
+        "output is checked to be in the core), the converter model's ONE output expression, printed by the unparser model, is "
+        "read back by the expression parser as exactly that expression with nothing left over (statement layer by induction over "
+        "statements: StmtCore; expression layer: LowerCore; printer = unparser: ParseTie; parser inverts printer: ParseProof). "
+        "C02_core_output_is_one_expression_partial: for every output tree inside the "
         "core of the C03 round-trip theorem (more than 90% of the explored outputs, counted in the evidence) the tokens of the "
         "unparser model's text are read by the expression parser as exactly that tree with no token left over; outside the core, "
         "that the returned text is exactly one expression is decided by compile() "
@@ -177,7 +183,9 @@ CLAIMED = {
    text="Theorems C12_members_replay (for EVERY sequence of class-body stores: running them against a dictionary and installing the "
         "dictionary's items in order with setattr yields exactly the ordered attribute map of the stores: names, final values, "
         "first-insertion order), C12_last_write_wins, C12_header (metaclass or type called with the class name, the rewritten bases in "
-        "order, the remaining keywords in order; bound in the defining namespace). Method kinds, MRO, super() are decided by executing the "
+        "order, the remaining keywords in order; bound in the defining namespace), C12_decorators_after_members (creation, loader, "
+        "installation of the members, and only then the decorators - last listed first, each applied to the name as bound then and "
+        "rebinding it). Method kinds, MRO, super() are decided by executing the "
         "1900-program skeleton product (support). Class-creation hooks are excluded by the property.",
    note=TRUST + "ClassNs.v models dict/class-namespace ordering; the class object is created before its body runs (visible only to class-creation hooks).",
    technique="Coq proof (ordered-map replay by induction with NoDup invariant; header shape theorem) + AST correspondence + differential execution of the skeleton product",
